@@ -35,7 +35,7 @@ theorem purge_entryFacts (hs : PurgeShape t fam addr pred t')
     EntryFacts t op t' (.changes cs) := by
   refine ⟨?_, ?_⟩
   · intro f n x hx
-    exact Or.inl ⟨x, hs.entries_subset hr f n x hx, (hflip x).symm, hrep f n x⟩
+    exact Or.inl ⟨x, hs.entries_subset hr f n x hx, (hflip x).symm, Or.inr (hrep f n x)⟩
   · intro h; cases h
 
 /-- the generic purge: whatever it returns, paths were only removed -/
